@@ -1,3 +1,4 @@
+import Zed.Generated.C20
 /-!
   C20 model, layer 1 — structural Zed types and value trees as the fuse code sees them
   (`type.go`, `complex.go`, `context.go`): `TypeUnder`, `Kind`, `CompareTypes`, the
@@ -34,8 +35,8 @@ deriving instance DecidableEq for Ty, Fields, Tys
 deriving instance Repr for Ty, Fields, Tys
 instance : Inhabited Ty := ⟨.prim 29⟩
 
-/-- `zed.IDNull` -/
-def idNull : Nat := 29
+/-- `zed.IDNull` (regenerated from type.go) -/
+def idNull : Nat := Generated.C20.idNull
 def tyNull : Ty := .prim idNull
 
 namespace Fields
